@@ -35,6 +35,14 @@ CHECKS = {
           'so the verdict covers every spelling, whitespace placement and both syntaxes.',
   'note': 'Trusts bison 3.8.2 for the sync comparison only, the action interpreter (engine/evalmini.py) and the documented precedence table tables/precedence.json. Does not decide that RE/flex reports columns in code points, nor sentences longer than the corpus shapes (the automaton is finite, the corpus covers every production, but not every state/lookahead pair).',
  },
+ 'C05': {
+  'technique': 'model extraction + model-level round trip: generator visitor methods partially evaluated per tree shape, lexer DFA read from the generated direct-coded lexers, LALR automaton with summarised actions; table agreement of spellings vs lexers',
+  'text': 'Decides, on models extracted from the current source, that print -> lex -> parse returns the same tree for every tree of a family that realises the quantifier of the property: every operator as parent of every operator '
+          'as left and right child (both groupings, both families), operators under every prefix/functional parent and in every binder, every constructor of the corpus, Greek local names; in MATH and ASCII. '
+          'Also: every fixed spelling lexes to its own token in its syntax, the transliteration table is the documented one, tree equality ignores positions, both lexers attach the same payloads.',
+  'note': 'The family is finite (about 700 distinct trees x 2 syntaxes); deeper nestings are covered only in so far as bracket decisions depend on (parent id, child id, position) alone, which is what the generator code reads. '
+          'Trusts the partial evaluator (engine/evalmini.py) and the lexer/parser model readers. Names colliding under transliteration are excluded by the statement.',
+ },
 }
 
 _PENDING = 'rule module not yet implemented in this round; see DESIGN.md section 4 for the clauses planned'
